@@ -106,6 +106,19 @@ ResetEvents ==
     \cup {In([R("4", rs) EXCEPT !.rn = rn]) : rs \in {-2, 0, 2}, rn \in {-1, 0, 1, 2}}
     \cup {In([PossDup(R("4", rs)) EXCEPT !.gf = "Y", !.rn = rn]) : rs \in {-1, 0}, rn \in {-1, 0, 2}}
 
+\* ---- family "garbage": C09 (malformed frames in every session state, then a well-formed TestRequest)
+Garbage(r) ==
+    {[r EXCEPT !.seqc = c] : c \in {"missing", "garbled", "empty"}}
+    \cup {[r EXCEPT !.st = c] : c \in {"missing", "bad"}}
+    \cup {[r EXCEPT !.cid = c] : c \in {"nosender", "notarget", "emptysender", "emptytarget"}}
+    \cup {[r EXCEPT !.pd = "bad"], [r EXCEPT !.val = "bad"], [r EXCEPT !.bs = "wrong"]}
+GarbageEvents ==
+    {K("Connect"), K("Disconnected"), K("Stop"), T("PeerTimeout"), LogonOK, In(R("D", 2)), In(R("D", 0)),
+     In([R("1", 0) EXCEPT !.trid = "T1"]), In(R("garbled", 0))}
+    \cup {In(g) : g \in UNION {Garbage(R(t, 0)) : t \in {"D", "0", "1", "2", "4", "5", "A", "3"}}}
+    \cup {In([PossDup(R("D", -1)) EXCEPT !.ost = o]) : o \in {"none", "bad", "after"}}
+    \cup {In([R("4", 0) EXCEPT !.gf = "bad"]), In([R("2", 0) EXCEPT !.b = -1]), In([R("2", 0) EXCEPT !.b = 1, !.e = -1])}
+
 \* ---- family "keep": C20 (keep-alive)
 KeepEvents ==
     {K("Connect"), K("Disconnected"), T("PeerTimeout"), T("NeedHeartbeat"), K("Flush"), Snd("b1", FALSE, FALSE)}
@@ -126,6 +139,7 @@ Alphabet == CASE Family = "seq" -> SeqEvents
               [] Family = "gate" -> GateEvents
               [] Family = "life" -> LifeEvents
               [] Family = "reset" -> ResetEvents
+              [] Family = "garbage" -> GarbageEvents
               [] Family = "keep" -> KeepEvents
               [] Family = "resend" -> ResendEvents
 
@@ -190,4 +204,5 @@ P_C06 == [][Holds("C06", C06_Fails(aux, O), O)]_vars
 P_C07 == [][Holds("C07", C07_Fails(aux, O), O)]_vars
 P_C08 == [][Holds("C08", C08_Fails(aux, O), O)]_vars
 P_C20 == [][Holds("C20", C20_Fails(aux, O), O)]_vars
+P_C09 == [][Holds("C09", C09_Fails(aux, O), O)]_vars
 =============================================================================
